@@ -93,11 +93,13 @@ def strip_keep(e):
     return strip(e)
 
 
-def twins(ctx, prog):
+def twins(ctx, prog, scope=None, floor=None):
     ctx.rule(R, "twin delegation: every exported `X_unchecked` (unsafe fn) is a single call of `X_internal` with its parameters in order, and the safe `X` computes the same internal call with the same arguments after its guards (normal forms of the two bodies, with pure delegating functions expanded, are equal)")
     n = 0
     for f in prog.fns:
         if not f.path.endswith("_unchecked") or "closure" in f.path or f.kind == "Closure":
+            continue
+        if scope is not None and not re.search(scope, f.path):
             continue
         if f.path.startswith("internals::compare::position_array::BlockHashPositionArrayImplUnchecked::"):
             continue  # trait declaration items
@@ -146,7 +148,7 @@ def twins(ctx, prog):
                             carms.append("then(.., || %s(..))" % ce[1].split("::")[-1])
         ctx.ob(R, "safe %s computes the same internal call as its unchecked twin (on its in-contract arm)" % safe.short, same,
                "safe arms: %s | unchecked: %s" % ([c[:140] for c in carms], (cu or "?")[:160]), safe.loc())
-    ctx.floor(R, n, 24, "*_unchecked functions with bodies")
+    ctx.floor(R, n, 24 if floor is None else floor, "*_unchecked functions with bodies%s" % ("" if scope is None else " in scope"))
 
 
 # ---- SA-INVPAIR ------------------------------------------------------------------------------------------------------
